@@ -1968,7 +1968,7 @@ def c02(tier, rng, rep, only=None):
         return [("s", "a" * k_) for k_ in (v - 1, v, v + 1, v + 2) if k_ >= 0]
 
     layout_inputs = {"i32": [("i", x) for x in (-5, 0, 3, 4, 7, 8, 10, 11, 49, 50, 99, 100, 101, 150, 1000)],
-                     "String": [("s", x) for x in ["", "a", " ab ", "AB", "ab1", " Zz ", "abc", "bb", "b{2}", "abbc", "b", "Bb{2}"]],
+                     "String": [("s", x) for x in ["", "a", " ab ", "AB", "ab1", " Zz ", "abc", "bb", "b{2}", "abbc", "b", "Bb{2}", "k1", "K22", "\u212a7", "k", "kx"]],
                      "f64": [("f", x) for x in (0, 1 << 63, 0x401C000000000000, 0xC01C000000000000, 0x7FF0000000000000, 0x7FF8000000000000, 0x3FF0000000000000)]}
 
     def ops_for(g, d, r):
@@ -2470,7 +2470,16 @@ def run_property(pid, tier, replay=None):
         j = json.load(open(replay))
         if "decl" in j:
             only = [Decl.from_json(j["decl"])]
-    fn(tier, rng, rep, only)
-    if only is None and pid in ZOO_PROPS:
-        zoo_part(rep, pid)
+    try:
+        fn(tier, rng, rep, only)
+        if only is None and pid in ZOO_PROPS:
+            zoo_part(rep, pid)
+    except RuntimeError as e:
+        # the corpus could not be built or run against this tree (e.g. cargo fails with an error no
+        # declaration can be blamed for): the correspondence cannot be established, which is reported,
+        # not swallowed by a crash of the check
+        import traceback
+        msg = str(e)
+        rep.violation("the correspondence run could not be completed on this tree: %s" % " ".join(msg.split())[:300],
+                      {"kind": "harness", "error": msg[-6000:], "traceback": traceback.format_exc()[-3000:]}, no_input=True)
     return finish(rep, assumptions)
